@@ -269,6 +269,8 @@ def _validate_params_with_signature(
     # Check if function accepts variable arguments (*args, **kwargs)
     has_var_positional = any(param.kind == inspect.Parameter.VAR_POSITIONAL for param in params_by_name.values())
     has_var_keyword = any(param.kind == inspect.Parameter.VAR_KEYWORD for param in params_by_name.values())
+    # Positional-only parameters can be set only by position. A kwarg with the same name belongs to `**kwargs`.
+    posonly_count = sum(param.kind == inspect.Parameter.POSITIONAL_ONLY for param in params_by_name.values())
 
     # Find the last positional parameter index (excluding *args)
     max_positional_index = 0
@@ -302,7 +304,7 @@ def _validate_params_with_signature(
                 raise TypeError(f"takes {max_positional_index} positional argument(s) but more were given")
 
             # For non-variadic arguments, get the parameter name this maps to
-            if next_positional_index < max_positional_index:
+            if posonly_count <= next_positional_index < max_positional_index:
                 param_name = valid_params[next_positional_index]
                 # Check if this parameter was already provided as a kwarg
                 if param_name in used_param_names:
@@ -320,7 +322,7 @@ def _validate_params_with_signature(
                 raise TypeError(f"got multiple values for argument '{param.key}'")
 
             # Validate kwarg names if the function doesn't accept **kwargs
-            if not has_var_keyword and param.key not in valid_params:
+            if not has_var_keyword and param.key not in valid_params[posonly_count:]:
                 raise TypeError(f"got an unexpected keyword argument '{param.key}'")
 
             validated_kwargs[param.key] = param.value
@@ -334,7 +336,13 @@ def _validate_params_with_signature(
         validated_kwargs.update(extra_kwargs)
 
     # Check for missing required arguments and apply defaults
-    for param_name, signature_param in params_by_name.items():
+    for i, (param_name, signature_param) in enumerate(params_by_name.items()):
+        if i < posonly_count:
+            # NOTE: Defaults of positional-only params cannot be passed as kwargs, Python applies them itself
+            if i >= len(validated_args) and signature_param.default == inspect.Parameter.empty:
+                raise TypeError(f"missing a required argument: '{param_name}'")
+            continue
+
         if param_name in used_param_names or param_name in validated_kwargs:
             continue
 
@@ -380,6 +388,8 @@ def _validate_params_with_code(
     skip_params = 2
     param_names = param_names[skip_params:]
     positional_count = max(0, positional_count - skip_params)
+    # Positional-only parameters can be set only by position. A kwarg with the same name belongs to `**kwargs`.
+    posonly_count = max(0, code.co_posonlyargcount - skip_params)
 
     # Calculate required counts
     num_defaults = len(defaults)
@@ -406,7 +416,7 @@ def _validate_params_with_code(
                 raise TypeError(f"takes {positional_count} positional argument(s) but more were given")
 
             # For non-variadic arguments, get parameter name
-            if next_positional_index < positional_count:
+            if posonly_count <= next_positional_index < positional_count:
                 param_name = param_names[next_positional_index]
                 if param_name in used_param_names:
                     raise TypeError(f"got multiple values for argument '{param_name}'")
@@ -423,9 +433,7 @@ def _validate_params_with_code(
                 raise TypeError(f"got multiple values for argument '{param.key}'")
 
             # Validate kwarg names
-            is_valid_kwarg = param.key in param_names[: positional_count + kwonly_count] or (  # Regular param
-                has_var_keyword and param.key not in param_names
-            )  # **kwargs param
+            is_valid_kwarg = param.key in param_names[posonly_count:] or has_var_keyword  # Regular or **kwargs param
             if not is_valid_kwarg:
                 raise TypeError(f"got an unexpected keyword argument '{param.key}'")
 
@@ -441,6 +449,12 @@ def _validate_params_with_code(
 
     # Check for missing required arguments and apply defaults
     for i, param_name in enumerate(param_names):
+        if i < posonly_count:
+            # NOTE: Defaults of positional-only params cannot be passed as kwargs, Python applies them itself
+            if i >= len(validated_args) and i < required_positional:
+                raise TypeError(f"missing a required argument: '{param_name}'")
+            continue
+
         if param_name in used_param_names or param_name in validated_kwargs:
             continue
 
